@@ -35,9 +35,12 @@ def run(tier, runner):
     r_sib.require(8, 'state-dependent const members')
     r_eq = round5.eq_elem(progs)
     r_eq.findings = [f for f in r_eq.findings if 'SmallSet' in f.key]
+    from ..rules import round6
+    r_sc = round6.ss_case(progs)
+    r_sc.require(6, 'insert x2, emplace, find, contains, count, erase(key) of SmallSet')
     return {
-        'results': [r_state, r_dup, r_cmp, r_node, r_sib, r_mo, r_lex, r_gr, r_is, r_ci, r_nm, r_pair, r_eq],
-        'explanation': 'EQ-ELEM: operator== never consults the ordering comparator.  C04 as stated (membership / size / comparison results over histories) is not decided.  Decided: SS-STATE - exactly one of the two '
+        'results': [r_state, r_dup, r_cmp, r_node, r_sib, r_mo, r_lex, r_gr, r_is, r_ci, r_nm, r_pair, r_eq, r_sc],
+        'explanation': 'SS-CASE: insert(value) x2 / emplace / find / contains / count / erase(key) are evaluated in each state (inline and not full, inline and full, large) for a present and an absent key, the inline vector and the set being abstract containers with their std semantics: the whole active container is searched, the key is added exactly once to the right container (after grow() when the inline vector is full), erased exactly there, and the position / flag / count returned are those of std::set.  EQ-ELEM: operator== never consults the ordering comparator.  C04 as stated (membership / size / comparison results over histories) is not decided.  Decided: SS-STATE - exactly one of the two '
                        'containers is written in each state (typestate on isSmall()/isSmallContFull()/grow() facts per operand; grow() moves all of the '
                        'vector into the set and clears it; private helpers are entered with their state established by every caller); SS-DUP - no path '
                        'adds to the inline vector without a membership test over it; CMP-OBJ - the stored comparator is used (also for the sorted '
